@@ -144,8 +144,31 @@ theorem zipWith_div_smul_same (c : α) (hc : c ≠ 0) (xs ys : List α) :
     | nil => simp
     | cons y ys => simp only [smul_cons, List.zipWith_cons_cons, ih, mul_div_mul_left _ _ hc]
 
+theorem mergeStep_smul (c : α) (hc : 0 < c) (origin adjust : List α) (st : List Nat × Nat × Nat) (k : Nat) :
+    mergeStep (smul c origin) (smul c adjust) st k = mergeStep origin adjust st k := by
+  unfold mergeStep
+  simp only [nth_smul, mul_lt_mul_iff_right₀ hc]
+
+/-- **The merging step is equivariant**: it compares origins with origins and adjusted times with adjusted
+times, so the same breakpoints are kept. -/
+theorem mergeBreaks_smul (c : α) (hc : 0 < c) (origin adjust : List α) :
+    mergeBreaks (smul c origin) (smul c adjust)
+      = (smul c (mergeBreaks origin adjust).1, smul c (mergeBreaks origin adjust).2) := by
+  have hstep : mergeStep (smul c origin) (smul c adjust) = mergeStep origin adjust := by
+    funext st k; exact mergeStep_smul c hc origin adjust st k
+  have hmap : ∀ (l : List Nat) (xs : List α), l.map (nth (smul c xs)) = smul c (l.map (nth xs)) := by
+    intro l xs
+    simp only [smul, List.map_map]
+    apply List.map_congr_left
+    intro i _
+    exact nth_smul c xs i
+  unfold mergeBreaks
+  simp only [smul_length, hstep, nth_smul, mul_lt_mul_iff_right₀ hc, hmap]
+  split_ifs <;> simp [smul]
+
 /-- **`mutational_timescale` is equivariant**: the weights `offset·duration` handed to
-`_fixed_changepoints` have degree 0, so the changepoints are the same; `origin` and `adjust` are times. -/
+`_fixed_changepoints` have degree 0, so the changepoints are the same; `origin` and `adjust` are times, and
+the final merging of uninformative intervals keeps the same breakpoints. -/
 theorem mutTimescale_smul (ofNat : Nat → α) (c k : α) (hc : 0 < c) (hk : c * k = 1) (t : List α)
     (lik : List (α × α)) (edges : List (Nat × Nat)) (maxIntervals : Nat) :
     mutTimescale ofNat (smul c t) (rateRows k lik) edges maxIntervals =
@@ -154,35 +177,36 @@ theorem mutTimescale_smul (ofNat : Nat → α) (c k : α) (hc : 0 < c) (hk : c *
   have hkc : k * c = 1 := by rw [mul_comm]; exact hk
   have hk0 : k ≠ 0 := fun h => by rw [h, mul_zero] at hk; exact zero_ne_one hk
   simp only [mutTimescale, mutArea_smul c k hc hk, zipWith_mul_smul, hkc, smul_one, cumsum_smul]
-  refine Prod.ext ?_ ?_
-  · simp only [smul, List.map_map]
+  have horig : ∀ cp : List Nat, cp.map (fun i => nth (0 :: smul c (cumsum (mutArea t lik edges).2.2.1)) i)
+      = smul c (cp.map (fun i => nth (0 :: cumsum (mutArea t lik edges).2.2.1) i)) := by
+    intro cp
+    simp only [smul, List.map_map]
     apply List.map_congr_left
     intro i _
     have := nth_smul c (0 :: cumsum (mutArea t lik edges).2.2.1) i
     simpa [smul] using this
-  · simp only
-    have hadj : ∀ cp : List (Nat × Nat),
-        cp.map (fun ij => sumRange (smul c (mutArea t lik edges).2.2.1) ij.1 ij.2
-            * sumRange (smul k (mutArea t lik edges).1) ij.1 ij.2
-            / sumRange (smul k (mutArea t lik edges).2.1) ij.1 ij.2)
-          = smul c (cp.map (fun ij => sumRange (mutArea t lik edges).2.2.1 ij.1 ij.2
-            * sumRange (mutArea t lik edges).1 ij.1 ij.2 / sumRange (mutArea t lik edges).2.1 ij.1 ij.2)) := by
-      intro cp
-      simp only [smul, List.map_map]
-      apply List.map_congr_left
-      intro ij _
-      simp only [Function.comp]
-      have h1 := sumRange_smul c (mutArea t lik edges).2.2.1 ij.1 ij.2
-      have h2 := sumRange_smul k (mutArea t lik edges).1 ij.1 ij.2
-      have h3 := sumRange_smul k (mutArea t lik edges).2.1 ij.1 ij.2
-      simp only [smul] at h1 h2 h3
-      rw [h1, h2, h3]
-      by_cases hn : sumRange (mutArea t lik edges).2.1 ij.1 ij.2 = 0
-      · simp [hn]
-      · field_simp
-    rw [hadj]
-    have h0 : ∀ l : List α, (0 : α) :: smul c l = smul c (0 :: l) := by intro l; simp
-    rw [h0, cumsum_smul]
+  have hadj : ∀ cp : List (Nat × Nat),
+      cp.map (fun ij => sumRange (smul c (mutArea t lik edges).2.2.1) ij.1 ij.2
+          * sumRange (smul k (mutArea t lik edges).1) ij.1 ij.2
+          / sumRange (smul k (mutArea t lik edges).2.1) ij.1 ij.2)
+        = smul c (cp.map (fun ij => sumRange (mutArea t lik edges).2.2.1 ij.1 ij.2
+          * sumRange (mutArea t lik edges).1 ij.1 ij.2 / sumRange (mutArea t lik edges).2.1 ij.1 ij.2)) := by
+    intro cp
+    simp only [smul, List.map_map]
+    apply List.map_congr_left
+    intro ij _
+    simp only [Function.comp]
+    have h1 := sumRange_smul c (mutArea t lik edges).2.2.1 ij.1 ij.2
+    have h2 := sumRange_smul k (mutArea t lik edges).1 ij.1 ij.2
+    have h3 := sumRange_smul k (mutArea t lik edges).2.1 ij.1 ij.2
+    simp only [smul] at h1 h2 h3
+    rw [h1, h2, h3]
+    by_cases hn : sumRange (mutArea t lik edges).2.1 ij.1 ij.2 = 0
+    · simp [hn]
+    · field_simp
+  have h0 : ∀ l : List α, (0 : α) :: smul c l = smul c (0 :: l) := by intro l; simp
+  rw [horig, hadj, h0, cumsum_smul]
+  exact mergeBreaks_smul c hc _ _
 
 /-- **`piecewise_scale_point_estimate` is equivariant**: the slopes are ratios of times (degree 0), the
 interval of every point is found by comparisons, the mapped times scale. -/
